@@ -110,10 +110,10 @@ def timer_must_end(tr, copts):
         return True
     if copts.get("close_timeout", 30.0):
         for e in tr.sim.log:
-            if e[0] == "send" and not e[2].startswith(b"GET "):
+            if e[0] in ("send", "send_fail") and not e[2].startswith(b"GET "):
                 frames, _ = wire.decode_frames(e[2])
                 if any(f.opcode == wire.CLOSE for f in frames):
-                    return True
+                    return True      # a Close frame was written, or at least attempted
     return False
 
 
@@ -213,9 +213,22 @@ class C07(Prop):
                     for pi in range(len(POLICIES)):
                         yield {"steps": steps, "policy": pi, "opts": oi}
 
+    def fault_cases(self):
+        """Histories with ONE write that fails without breaking the transport (the k-th sendall
+        after the request times out or raises), ending with EOF or with a silent server."""
+        for first in ("reply", "reply_deflate"):
+            for mid in ALPHABET[5:17]:
+                for end in ("silence", "eof"):
+                    for oi in range(len(OPTION_SETS)):
+                        for pi in range(len(POLICIES)):
+                            for k in (1, 2, 3):
+                                for kind in ("timeout", "exc"):
+                                    yield {"steps": [first, mid, end], "policy": pi, "opts": oi, "send_fault": [k, kind]}
+
     def enumerations(self, tier):
         depth = 3 if tier == "quick" else 4
-        return [Enumeration("histories_depth_%d" % depth, lambda: self.history_cases(depth), exhaustive=True)]
+        return [Enumeration("histories_depth_%d" % depth, lambda: self.history_cases(depth), exhaustive=True),
+                Enumeration("histories_with_one_failed_write", self.fault_cases, exhaustive=True)]
 
     def strategy(self, tier):
         action = st.one_of(
@@ -243,6 +256,9 @@ class C07(Prop):
             "first": first, "rest": rest, "end": st.sampled_from(["eof", "eof", "reset", "silence"]),
             "reactions": st.lists(rule, max_size=4), "copts": opts,
             "addrs": st.lists(st.sampled_from(["ok", "refused", "timeout", "sockerr"]), min_size=1, max_size=3),
+            # "every fault": one non-fatal write fault (the k-th sendall times out / raises)
+            "send_fault": st.one_of(st.none(), st.none(), st.tuples(st.integers(0, 6), st.sampled_from(
+                ["timeout", "exc", "reset"])).map(list)),
         })
 
     def run_case(self, case):
@@ -260,6 +276,9 @@ class C07(Prop):
             labels = {"generated"}
         script = [["wait_request"]]
         att = {}
+        if "policy" in case and case.get("send_fault"):
+            att["faults"] = {"send": {str(case["send_fault"][0]): case["send_fault"][1]}}
+            labels.add("send_fault")
         if steps == ["refused"]:
             att["addrs"] = [{"connect": "refused"}]
         else:
@@ -269,6 +288,9 @@ class C07(Prop):
                 script.append(["eof", 0.0])
             if addrs:
                 att["addrs"] = addrs
+            if case.get("send_fault"):
+                att["faults"] = {"send": {str(case["send_fault"][0]): case["send_fault"][1]}}
+                labels.add("send_fault")
         silent_end = steps[-1] == "silence"
         scn = build.scenario(script, connect_opts=copts, reactions=reactions, attempt_extra=att,
                              horizon=600.0 if silent_end else None)
